@@ -206,12 +206,14 @@ def main():
     corr = {"evaluations": 0, "distinct_nontrivial": 0, "disagreements": 0, "hard": 0, "soft": 0, "drift": 0,
             "samples": [], "histogram": {}, "configs": []}
     rng = random.Random(seed * 1000003 + int(hashlib.sha1(pid.encode()).hexdigest()[:6], 16))
+    configs = P.get("configs_thorough" if tier == "thorough" else "configs", [(None, "chk")])
+    # generators that need private boundaries (motion profiles) ask the freshly built default harness
+    cases.HARNESS_BIN = build_harness(configs[0][0], log)
     if replay:
         rp = json.load(open(replay))
         lines = rp.get("cases", [])
     else:
         lines = load_corpus(pid) + P["gen"](rng, tier)
-    configs = P.get("configs_thorough" if tier == "thorough" else "configs", [(None, "chk")])
     driver = os.path.join(LEAN, ".lake", "build", "bin", "driver")
     kf = known_findings(pid)
     extra = None
